@@ -11,10 +11,13 @@
 EXTENDS TagLang, TLC, Json, FiniteSets, SequencesExt
 
 CONSTANTS AtomIds,    \* subset of DOMAIN AtomTable
-          Depth
+          Depth,
+          MutLen      \* neighbours (ill-formed family) are emitted for renderings of at most this many tokens
 
 AtomTable == <<Tag("a", 0), Tag("b", 0), Tag("ab", 1), Re("a", 0), Re("b$", 2),      \* 1-5
-               Tag("ab", 0), Tag("a", 2), Tag("b", 1), Re("^a", 1), Re("b", 0)>>     \* 6-10
+               Tag("ab", 0), Tag("a", 2), Tag("b", 1), Re("^a", 1), Re("b", 0),      \* 6-10
+               Re("b|a$", 0), Re("a,b", 0), Re("a&b", 0), Re("^(a|b)$", 0),          \* 11-14: bare regexes that
+               Re("b|a$", 1)>>                                                       \* swallow operator characters; 15
 A0 == {AtomTable[i] : i \in AtomIds}
 Grow(S) == S \cup {Not(y) : y \in S} \cup {Par(y) : y \in S}
              \cup {And(y, z) : y \in S, z \in S} \cup {Or("|", y, z) : y \in S, z \in S}
@@ -39,10 +42,23 @@ Init == x \in A0
 Next == Depth >= 1 /\ Dp(x) < Depth /\ x' \in Succ(x)
 Spec == Init /\ [][Next]_x
 
-ExprLaws == WFX(x) /\ RenderReadable(x) /\ RenderFaithful(x) /\ BooleanAlgebra(x)
+ExprLaws == WFX(x) /\ RenderReadable(x) /\ RenderFaithful(x) /\ TextFaithful(x) /\ BooleanAlgebra(x)
             /\ \A i \in DOMAIN Render(x) : TokOK(Render(x)[i])
 
+(* Neighbours of a short rendered expression: one token deleted or doubled.  Most are ill-formed   *)
+(* (operator where an operand is expected, doubled operators, unbalanced parentheses, a bare regex *)
+(* that swallows what follows); the reference reader of the text says which, and why.             *)
+DelAt(ts, i) == SubSeq(ts, 1, i - 1) \o SubSeq(ts, i + 1, Len(ts))
+DupAt(ts, i) == SubSeq(ts, 1, i) \o SubSeq(ts, i, Len(ts))
+Judged(m) == LET r == ReadText(Write(m))
+                 known == r.ok /\ KnownRegexes(r.x)
+             IN [toks |-> m, ok |-> r.ok, why |-> r.why, known |-> known,
+                 vals |-> IF known THEN [j \in DOMAIN SubsetList |-> Eval(r.x, SubsetList[j])] ELSE <<>>]
+Neighbours(ts) == IF Len(ts) > MutLen THEN <<>>
+                  ELSE [n \in 1..(2 * Len(ts)) |-> Judged(IF n <= Len(ts) THEN DelAt(ts, n) ELSE DupAt(ts, n - Len(ts)))]
+
 Emit == PrintT(<<"CASE", ToJson([first |-> FALSE, x |-> x, toks |-> Render(x),
-                                 vals |-> [j \in DOMAIN SubsetList |-> Eval(x, SubsetList[j])]])>>)
+                                 vals |-> [j \in DOMAIN SubsetList |-> Eval(x, SubsetList[j])],
+                                 bad |-> Neighbours(Render(x))])>>)
 
 =============================================================================
